@@ -722,7 +722,7 @@ impl Prop for P {
 
     fn rule() -> &'static str {
         "generated histories (2-40 operations) over 2-4 functions that differ in slot, choice, output and variable \
-         counts: Eval (point / interval / float-slice 1-9 samples / grad-slice) with ONE long-lived evaluator per kind and \
+         counts (results compared with fresh objects include, for the interpreter, the tape itself: slot count and instruction listing): Eval (point / interval / float-slice 1-9 samples / grad-slice) with ONE long-lived evaluator per kind and \
          tape storage taken from a shared pool and recycled afterwards; Simplify with a trace from the long-lived \
          evaluator, function storage from a pool of recycled functions and ONE shared workspace; RecycleFn; and \
          RenderHandle sub-histories (interval eval -> cached simplify -> float-slice eval -> nested once more on the child handle -> recycle into the same pools); \
